@@ -20,7 +20,7 @@ CONSTANTS DefaultCopied,   \* TRUE: schema defaults are deep-copied before use (
 Acc(k, x) == <<k, x>>
 
 Ops == {"find_mux", "find_legacy", "vreq_params", "vreq_params_delete", "vreq_body_pattern_first", "vreq_body_pattern_again", "vreq_body_unique",
-        "vreq_body_defaults", "vresp", "visitjson", "gen_newtype", "gen_sametype", "vreq_body_pattern_customregex"}
+        "vreq_body_defaults", "vresp", "visitjson", "gen_newtype", "gen_sametype", "vreq_body_pattern_customregex", "vreq_secure_body"}
 
 Accesses(op) ==
    CASE op = "find_mux" ->
@@ -32,6 +32,8 @@ Accesses(op) ==
      [] op = "vreq_body_pattern_customregex" ->      \* a caller-supplied regex compiler: its matchers must stay the caller's own
           <<Acc("R", "doc.schema"), Acc("A", "patternCache")>>
      [] op = "vreq_body_pattern_again" -> <<Acc("R", "doc.schema"), Acc("A", "patternCache")>>
+     [] op = "vreq_secure_body" ->      \* security + body: the body is buffered around the authentication callback in request-local memory
+          <<Acc("R", "doc.security"), Acc("R", "doc.securitySchemes"), Acc("R", "doc.schema")>>
      [] op = "vreq_body_unique" -> <<Acc("R", "doc.schema"), Acc("R", "uniqueChecker")>>
      [] op = "vreq_body_defaults" ->
           <<Acc("R", "doc.schema"), Acc("R", "doc.schema.default")>>
@@ -50,6 +52,7 @@ Verdicts(op) ==
      [] op = "vreq_params_delete" -> <<"ok", "reject", "ok">>
      [] op = "vreq_body_pattern" -> <<"ok", "reject", "reject">>                \* matching / foreign / upper-cased text
      [] op = "vreq_body_pattern_customregex" -> <<"ok", "reject", "ok">>        \* upper-cased / foreign / matching text
+     [] op = "vreq_secure_body" -> <<"ok", "reject", "ok">>
      [] op = "vreq_body_unique" -> <<"reject", "ok", "reject">>
      [] op = "vreq_body_defaults" -> <<"ok", "ok", "ok">>
      [] op = "vresp" -> <<"ok", "reject", "ok">>
